@@ -55,6 +55,8 @@ type Path struct {
 	Blocks  []int
 	Next    map[string]*Term // on arrival at a header: value flowing into each of its phis
 	PrePath *Path            // for a segment started at a header: the path whose arrival seeded it
+	rel     *relSys
+	relN    int
 }
 
 func (p *Path) AtomString() string {
@@ -72,7 +74,20 @@ func (p *Path) Has(k string, pos bool) bool {
 			return true
 		}
 	}
+	if v := p.entailed(k); v != 0 {
+		return (v == 1) == pos
+	}
 	return false
+}
+
+// entailed: the comparison k follows (+1) or is refuted (-1) by the path's
+// comparison atoms read as difference constraints (REL).
+func (p *Path) entailed(k string) int {
+	if p.rel != nil && p.relN != len(p.Atoms) {
+		p.rel = nil
+	}
+	p.relN = len(p.Atoms)
+	return entails(p.Atoms, &p.rel, k)
 }
 
 // Val returns +1/-1 if the path fixes atom k to true/false and 0 otherwise.
@@ -85,7 +100,7 @@ func (p *Path) Val(k string) int {
 			return -1
 		}
 	}
-	return 0
+	return p.entailed(k)
 }
 
 type memEntry struct {
@@ -316,7 +331,140 @@ func (x *Exec) Summarize(fn *ssa.Function) []*Path {
 			break
 		}
 	}
+	for _, p := range out {
+		p.foldKnown()
+	}
 	return out
+}
+
+// ExpandBoolRet splits every path whose idx-th result is a boolean expression
+// (not a constant) into the path on which it is true and the path on which
+// it is false, with the expression added to the atoms: `return a != b` and
+// `if a == b { return false }; return true` then read alike.
+func ExpandBoolRet(paths []*Path, idx int) []*Path {
+	var out []*Path
+	for _, p := range paths {
+		if idx >= len(p.Rets) || p.Rets[idx].Op == "const" {
+			out = append(out, p)
+			continue
+		}
+		t := p.Rets[idx]
+		if !((t.Op == "bin" && isComparison(t.Name)) || (t.Op == "un" && t.Name == "!") || t.Op == "call" || t.Op == "ext" || t.Op == "invoke") {
+			out = append(out, p)
+			continue
+		}
+		at, pol := normAtom(t)
+		if v := p.Val(at.Key()); v != 0 {
+			c := *p
+			c.Rets = append([]*Term(nil), p.Rets...)
+			c.Rets[idx] = constTerm(strconv.FormatBool((v == 1) == pol))
+			c.rel = nil
+			out = append(out, &c)
+			continue
+		}
+		for _, val := range []bool{true, false} {
+			c := *p
+			c.Atoms = append(append([]Atom(nil), p.Atoms...), Atom{T: at, Pos: val == pol, Fn: funcName(p.Fn), At: "result"})
+			c.Rets = append([]*Term(nil), p.Rets...)
+			c.Rets[idx] = constTerm(strconv.FormatBool(val))
+			c.rel = nil
+			out = append(out, &c)
+		}
+	}
+	return out
+}
+
+func isComparison(op string) bool {
+	switch op {
+	case "==", "!=", "<", "<=", ">", ">=":
+		return true
+	}
+	return false
+}
+
+// foldKnown replaces, in the values a path hands out (effect operands,
+// results, loop-carried values), every comparison whose outcome the path has
+// already branched on by that outcome: `w := s[0] == '*'; if w { f(w) }`
+// passes true. Terms name values, not program points, so a comparison term
+// equal to a branched-on atom has the atom's truth value wherever it is used
+// on the path.
+func (p *Path) foldKnown() {
+	known := map[string]bool{}
+	for _, a := range p.Atoms {
+		if a.T.Op == "bin" && isComparison(a.T.Name) {
+			known[a.T.Key()] = a.Pos
+		}
+	}
+	if len(known) == 0 {
+		return
+	}
+	memo := map[*Term]*Term{}
+	var sub func(t *Term) *Term
+	sub = func(t *Term) *Term {
+		if t == nil {
+			return nil
+		}
+		if r, ok := memo[t]; ok {
+			return r
+		}
+		res := t
+		if (t.Op == "bin" && isComparison(t.Name)) || (t.Op == "un" && t.Name == "!") {
+			at, pol := normAtom(t)
+			if v, ok := known[at.Key()]; ok {
+				res = constTerm(strconv.FormatBool(v == pol))
+				memo[t] = res
+				return res
+			}
+		}
+		var args []*Term
+		for i, a := range t.Args {
+			na := sub(a)
+			if na != a && args == nil {
+				args = append([]*Term(nil), t.Args...)
+			}
+			if args != nil {
+				args[i] = na
+			}
+		}
+		if args != nil {
+			c := *t
+			c.Args, c.key = args, ""
+			res = &c
+			if c.Op == "un" && c.Name == "!" && args[0].Op == "const" {
+				res = constTerm(strconv.FormatBool(args[0].Name != "true"))
+			}
+		}
+		memo[t] = res
+		return res
+	}
+	subAll := func(ts []*Term) []*Term {
+		var out []*Term
+		for i, t := range ts {
+			nt := sub(t)
+			if nt != t && out == nil {
+				out = append([]*Term(nil), ts...)
+			}
+			if out != nil {
+				out[i] = nt
+			}
+		}
+		if out != nil {
+			return out
+		}
+		return ts
+	}
+	effs := make([]Effect, len(p.Effects))
+	copy(effs, p.Effects)
+	for i := range effs {
+		effs[i].Args = subAll(effs[i].Args)
+		effs[i].Deref = subAll(effs[i].Deref)
+		effs[i].Res = sub(effs[i].Res)
+	}
+	p.Effects = effs
+	p.Rets = subAll(p.Rets)
+	for k, v := range p.Next {
+		p.Next[k] = sub(v)
+	}
 }
 
 type hdrCont func(fr *frame, st *state, h, from *ssa.BasicBlock)
@@ -841,6 +989,26 @@ func foldBin(op string, a, b *Term, typ types.Type) *Term {
 	if b.Op == "const" && b.Name == "nil" && (op == "==" || op == "!=") && knownNonNil(a) {
 		return constTerm(strconv.FormatBool(op == "!="))
 	}
+	if a.Op == "const" && b.Op == "const" && (op == "+" || op == "-" || op == "*") {
+		// integer constants (small: ports, offsets, lengths) are folded so that
+		// `k := c1; k -= c2` and a literal c1-c2 read alike
+		if x, err := strconv.ParseInt(a.Name, 10, 64); err == nil {
+			if y, err := strconv.ParseInt(b.Name, 10, 64); err == nil && x > -(1<<31) && x < 1<<31 && y > -(1<<31) && y < 1<<31 {
+				var v int64
+				switch op {
+				case "+":
+					v = x + y
+				case "-":
+					v = x - y
+				case "*":
+					v = x * y
+				}
+				if v > -(1<<31) && v < 1<<31 {
+					return &Term{Op: "const", Name: strconv.FormatInt(v, 10), Type: typ}
+				}
+			}
+		}
+	}
 	if a.Op == "const" && b.Op == "const" {
 		switch op {
 		case "==":
@@ -930,6 +1098,54 @@ func (x *Exec) call(fr *frame, b *ssa.BasicBlock, i int, pred *ssa.BasicBlock, i
 	if pol == PolInline && (len(callee.Blocks) == 0 || hasLoop(callee) || fr.depth+1 > x.MaxDepth || inChain(fr, callee)) {
 		pol = PolEffect
 	}
+	// library models: a few standard-library string searches are spelled in
+	// terms of one primitive, strings.IndexByte, so that equivalent calls read
+	// alike (strings.ContainsRune(s, ':') ≡ strings.IndexByte(s, ':') >= 0 …)
+	if m, ok := x.libModel(name, args, ins.Type()); ok {
+		fr.env[ins] = m
+		return false
+	}
+	if name == "strings.Cut" && len(args) == 2 {
+		if c1, ok := oneByte(args[1]); ok {
+			// strings.Cut(s, sep) is, by definition,
+			//   if i := Index(s, sep); i >= 0 { return s[:i], s[i+len(sep):], true }; return s, "", false
+			idx := &Term{Op: "call", Name: "strings.IndexByte", Args: []*Term{args[0], constTerm(c1)}, Type: types.Typ[types.Int]}
+			at := mk("bin", "<", idx, constTerm("0"))
+			none := constTerm("_")
+			for _, notFound := range []bool{true, false} {
+				feasible, known := true, false
+				for _, a := range st.atoms {
+					if a.T.Key() == at.Key() {
+						known = true
+						if a.Pos != notFound {
+							feasible = false
+						}
+					}
+				}
+				if !feasible {
+					continue
+				}
+				st2 := st.clone()
+				fr2 := cloneChain(fr)
+				if !known {
+					st2.atoms = append(st2.atoms, Atom{T: at, Pos: notFound, Fn: funcName(fr.fn), At: x.at(ins.Pos())})
+				}
+				var rets []*Term
+				if notFound {
+					rets = []*Term{args[0], {Op: "const", Name: `""`, Type: types.Typ[types.String]}, constTerm("false")}
+				} else {
+					rets = []*Term{
+						{Op: "slice", Args: []*Term{args[0], none, idx, none}, Type: types.Typ[types.String]},
+						{Op: "slice", Args: []*Term{args[0], foldBin("+", idx, constTerm("1"), types.Typ[types.Int]), none, none}, Type: types.Typ[types.String]},
+						constTerm("true"),
+					}
+				}
+				fr2.env[ins] = &Term{Op: "tuple", Name: name, Args: rets}
+				x.instrs(fr2, b, i+1, pred, st2, false, hdrs, onHdr, onRet)
+			}
+			return true
+		}
+	}
 	switch pol {
 	case PolPure:
 		// a pointer to a local whose content is known is passed "by content"
@@ -951,10 +1167,26 @@ func (x *Exec) call(fr *frame, b *ssa.BasicBlock, i int, pred *ssa.BasicBlock, i
 			if a.Op == "alloc" {
 				if e, ok := st.mem[a.Key()]; ok {
 					deref[k] = e.Val
+				} else if k < len(c.Args) {
+					// a local struct filled field by field: its content as a composite
+					if pt, ok := c.Args[k].Type().Underlying().(*types.Pointer); ok {
+						if _, isStruct := pt.Elem().Underlying().(*types.Struct); isStruct {
+							if v := x.load(st, a, pt.Elem()); v.Op == "composite" {
+								deref[k] = v
+							}
+						}
+					}
 				}
 			}
 		}
 		st.effects[len(st.effects)-1].Deref = deref
+		// acquiring a lock embedded in a struct synchronises with every
+		// earlier release: the sibling fields may have been written by another
+		// goroutine since they were last read, so what is known of them is
+		// forgotten (a value read in an earlier critical section is stale)
+		if isLockAcquire(name) && len(args) > 0 && args[0].Op == "faddr" {
+			x.havoc(st, args[0].Args[0])
+		}
 		for k, a := range args {
 			if k < len(c.Args) {
 				if _, ok := c.Args[k].Type().Underlying().(*types.Pointer); ok {
@@ -1000,6 +1232,53 @@ func (x *Exec) call(fr *frame, b *ssa.BasicBlock, i int, pred *ssa.BasicBlock, i
 		x.instrs(resume, b, i+1, pred, st2, false, hdrs, onHdr, onRet)
 	})
 	return true
+}
+
+// oneByte: t is a one-byte string constant or an ASCII rune/byte constant;
+// returns the byte's decimal spelling.
+func oneByte(t *Term) (string, bool) {
+	if t == nil || t.Op != "const" {
+		return "", false
+	}
+	if s, ok := t.ConstString(); ok {
+		if len(s) == 1 && s[0] < 0x80 {
+			return strconv.Itoa(int(s[0])), true
+		}
+		return "", false
+	}
+	if n, err := strconv.Atoi(t.Name); err == nil && n >= 0 && n < 0x80 {
+		return t.Name, true
+	}
+	return "", false
+}
+
+// libModel rewrites calls of a few pure string searches into IndexByte form.
+func (x *Exec) libModel(name string, args []*Term, typ types.Type) (*Term, bool) {
+	if len(args) != 2 {
+		return nil, false
+	}
+	idx := func(c string) *Term {
+		return &Term{Op: "call", Name: "strings.IndexByte", Args: []*Term{args[0], constTerm(c)}, Type: types.Typ[types.Int]}
+	}
+	switch name {
+	case "strings.ContainsRune", "strings.Contains":
+		if c, ok := oneByte(args[1]); ok {
+			return &Term{Op: "un", Name: "!", Args: []*Term{mk("bin", "<", idx(c), constTerm("0"))}, Type: typ}, true
+		}
+	case "strings.IndexRune", "strings.Index":
+		if c, ok := oneByte(args[1]); ok {
+			return idx(c), true
+		}
+	}
+	return nil, false
+}
+
+func isLockAcquire(name string) bool {
+	switch name {
+	case "(*sync.RWMutex).Lock", "(*sync.RWMutex).RLock", "(*sync.Mutex).Lock", "(*sync.RWMutex).TryLock", "(*sync.RWMutex).TryRLock", "(*sync.Mutex).TryLock":
+		return true
+	}
+	return false
 }
 
 func inChain(fr *frame, fn *ssa.Function) bool {
